@@ -947,7 +947,17 @@ func (e *Engine) eval(fr *frame, st *State, x ast.Expr, k cont) {
 		e.eval(fr, st, x.X, func(st *State, l Val) {
 			e.eval(fr, st, x.Y, func(st *State, r Val) {
 				if x.Op == token.QUO || x.Op == token.REM {
-					e.guard(fr, st, sx.Not(sx.App("=", r.T, sx.Int(0))), "division by zero", func(st *State) { k(st, e.binop(x.Op, l, r)) })
+					e.guard(fr, st, sx.Not(sx.App("=", r.T, sx.Int(0))), "division by zero", func(st *State) {
+						res := e.binop(x.Op, l, r)
+						if x.Op == token.REM && !isNumeral(r.T) {
+							// arithmetic hint for a symbolic modulus (ring indices): for 0 <= a < 2n, a % n is a - n or a.
+							// A consequence of the definition of %, stated so that the solvers need no nonlinear reasoning.
+							hint := sx.Implies(sx.And(sx.App(">=", l.T, sx.Int(0)), sx.App(">", r.T, sx.Int(0)), sx.App("<", l.T, sx.App("*", sx.Int(2), r.T))),
+								sx.App("=", res.T, sx.Ite(sx.App(">=", l.T, r.T), sx.App("-", l.T, r.T), l.T)))
+							st.facts = append(st.facts, hint)
+						}
+						k(st, res)
+					})
 					return
 				}
 				k(st, e.binop(x.Op, l, r))
